@@ -351,26 +351,6 @@ def amplitude_provenance(ctx):
         raise AnalysisError(f"prep_afqmc: only {len(seen_keys)} amplitude arrays reach np.savez('amplitudes.npz', ...)")
 
 
-def _trial_branches(rd) -> Dict[str, ast.AST]:
-    out: Dict[str, ast.AST] = {}
-
-    def walk_if(n):
-        if isinstance(n, ast.If) and isinstance(n.test, ast.Compare) and "options['trial']" in ast.unparse(
-                n.test.left) and isinstance(n.test.comparators[0], ast.Constant):
-            out[n.test.comparators[0].value] = ast.Module(body=n.body, type_ignores=[])
-            for o in n.orelse:
-                walk_if(o)
-            if n.orelse and not isinstance(n.orelse[0], ast.If):
-                out["<else>"] = ast.Module(body=n.orelse, type_ignores=[])
-
-    for nd in ast.walk(rd.node):
-        if isinstance(nd, ast.If) and isinstance(nd.test, ast.Compare) and "options['trial']" in ast.unparse(
-                nd.test.left) and isinstance(nd.test.comparators[0], ast.Constant) and \
-                nd.test.comparators[0].value == "rhf":
-            walk_if(nd)
-    return out
-
-
 def _prep_specialised(p, rd):
     """(evaluator, result tuple, options['trial'] term): the value graph of _prep_afqmc, to be specialised per option"""
     from ..symex import Evaluator as _Ev, const as _const, getitem as _gi
